@@ -356,6 +356,40 @@ def add_stale(L, rng, args, index, p=0.3, extra_dirs=()):
                     L.add(nd)
 
 
+def add_hostile_permissions(L, rng, args):
+    """permission bits that make an operation fail for an ordinary owner:
+    a read-only parent directory (the entry cannot be renamed away), a
+    read-only directory as the entry itself, a home trash whose files/ or
+    info/ is read-only (the next candidate must be tried, or failure
+    reported).  returns the variant used, or None"""
+    byp = dict((nd['p'], nd) for nd in L.nodes)
+    real = [a for a in args if a.get('rel') and a['rel'] in byp]
+    variant = rng.choice(['ro-parent', 'ro-dir-entry', 'ro-trash-files',
+                          'ro-trash-info', 'ro-trash-dir'])
+    if variant == 'ro-parent' and real:
+        a = rng.choice(real)
+        par = os.path.dirname(a['rel'])
+        if par in byp and byp[par].get('t') == 'd':
+            byp[par]['m'] = 0o555
+            return variant
+    if variant == 'ro-dir-entry':
+        dirs = [a for a in real if byp[a['rel']].get('t') == 'd']
+        if dirs:
+            byp[rng.choice(dirs)['rel']]['m'] = 0o555
+            return variant
+    if variant.startswith('ro-trash'):
+        ht = L.home_trash()
+        if ht:
+            L.add(world.ensure_trash_dirs(ht))
+            byp = dict((nd['p'], nd) for nd in L.nodes)
+            tgt = {'ro-trash-files': ht + '/files', 'ro-trash-info': ht + '/info',
+                   'ro-trash-dir': ht}[variant]
+            if tgt in byp:
+                byp[tgt]['m'] = 0o555
+                return variant
+    return None
+
+
 def add_partial_trash_dirs(L, rng, p=0.2, extra_dirs=()):
     """half set-up trash directories (the dir alone, only info/, only files/):
     the missing parts must be created on demand, the directory still used"""
@@ -426,7 +460,12 @@ def gen_case(rng, index, tier):
                         [{'p': '', 't': 'f', 'c': 'old payload %d' % index}]))
     add_stale(L, rng, args, index)
     add_partial_trash_dirs(L, rng)
+    perm = add_hostile_permissions(L, rng, args) if rng.random() < 0.06 else None
     case = L.desc()
+    if perm:
+        # run without the capabilities that let root ignore mode bits
+        case['drop_caps'] = True
+        case['perm'] = perm
     case['env'] = dict(case['env'], **env_extra)
     case['args'] = args
     case['opts'] = opts
@@ -486,6 +525,9 @@ def judge(case, w, r, s0, s1, des, out):
             obs['op_' + e['op']] = obs.get('op_' + e['op'], 0) + 1
     out['features'].append('opt:' + case['optclass'])
     out['features'].append('vols:%d' % len(case['mounts']))
+    if case.get('perm'):
+        out['features'].append('perm:' + case['perm'])
+        out['obs']['hostile_permission_runs'] = 1
     refused = 0
     for a, P, o in zip(case['args'], des, A.outcomes):
         out['features'].append('sp:' + a['class'])
